@@ -349,6 +349,417 @@ class SharedFutureSuite(Suite):
                 "resolved_before_tracer_was_wired": charged_refused, "every_handle_dropped_while_pending": dropped_all_pending}
 
 
+# ---------------------------------------------------------------------------------------------------------------------
+# API-level suite: whole calls of one thread, any number of handles / states, every access spelling at every point of the
+# life cycle, move-sensitive value types (lean/CoclsModel/SharedFutureApi.lean, harness/h_shared_future_api.cpp)
+API_HARNESS = ("h_shared_future_api", ["h_shared_future_api.cpp"], {"extra_flags": ["-fno-access-control"]})
+API_TYPES = ["mval", "str"]
+SP_POLL = ["ready", "value", "cready", "cpending", "cinit", "cvalue"]
+SP_BLOCK = ["wait", "fwait", "join", "sync", "fsync", "cwait", "cjoin", "cderef", "chasv", "cbool", "cnot"]
+SP_AWAIT = ["coro", "cb"]
+SP_ALL = SP_POLL + SP_BLOCK + SP_AWAIT
+SP_VALUE = ("value", "cvalue", "wait", "fwait", "cwait", "cjoin", "cderef")   # return the stored value / throw the stored exception
+SP_READY = ("ready", "cready")
+API_RK = ["value", "value", "exc", "drop", "dtor"]
+
+
+def api_case(T, ops):
+    return {"id": 0, "lines": ["case 0 api " + T] + ops + ["end"]}
+
+
+def api_rk(rng, n):
+    k = rng.choice(API_RK)
+    return "value %d" % (10 + n) if k == "value" else "exc %d" % (1 + n) if k == "exc" else k
+
+
+class ApiGen:
+    """keeps just enough book-keeping to generate calls that are mostly inside the contract (the harness and the model
+    decide themselves what is inside: `pre`)"""
+
+    def __init__(self, rng):
+        self.rng, self.ops = rng, []
+        self.h = []          # handle -> state index | None (null) | "gone"
+        self.ph = []         # state -> "inst" | "pending" | "ready"
+
+    def live(self, pred=lambda st: True):
+        return [i for i, st in enumerate(self.h) if st != "gone" and pred(st)]
+
+    def emit(self, op):
+        self.ops.append(op)
+
+    def new(self):
+        self.emit("new"); self.h.append(None); return len(self.h) - 1
+
+    def mk(self, m, arg=0):
+        self.emit("mk " + m + (" %d" % arg if m in ("sv", "se") else ""))
+        self.ph.append("ready" if m in ("sv", "se") else "pending"); self.h.append(len(self.ph) - 1); return len(self.h) - 1
+
+    def copy(self, i):
+        self.emit("copy %d" % i)
+        if i < len(self.h) and self.h[i] != "gone":
+            self.h.append(self.h[i])
+
+    def assign(self, i, j):
+        self.emit("assign %d %d" % (i, j))
+        if i < len(self.h) and j < len(self.h) and self.h[i] != "gone" and self.h[j] != "gone":
+            self.h[i] = self.h[j]
+
+    def drop(self, i):
+        self.emit("drop %d" % i)
+        if i < len(self.h):
+            self.h[i] = "gone"
+
+    def init(self, i):
+        self.emit("init %d" % i)
+        if i < len(self.h) and self.h[i] is None:
+            self.ph.append("inst"); self.h[i] = len(self.ph) - 1
+
+    def getp(self, i, op="getp"):
+        self.emit("%s %d" % (op, i))
+        if i >= len(self.h) or self.h[i] == "gone":
+            return
+        if self.h[i] is None:
+            if op == "getp":
+                self.ph.append("pending"); self.h[i] = len(self.ph) - 1
+        elif self.ph[self.h[i]] == "inst":
+            self.ph[self.h[i]] = "pending"
+
+    def resolve(self, k, rk):
+        self.emit("resolve %d %s" % (k, rk))
+        if k < len(self.ph) and self.ph[k] == "pending":
+            self.ph[k] = "ready"
+
+    def see(self, sp, i):
+        self.emit("%s %d" % (sp, i))
+
+    def spell_for(self, i, wild=0.1):
+        """a spelling that is inside the contract for handle i (sometimes any)"""
+        rng = self.rng
+        st = self.h[i] if i < len(self.h) else "gone"
+        if rng.random() < wild or st == "gone":
+            return rng.choice(SP_ALL)
+        if st is None:
+            return rng.choice(["ready", "value"])
+        ph = self.ph[st]
+        if ph == "inst":
+            return rng.choice(SP_POLL)
+        if ph == "pending":
+            return rng.choice(SP_POLL + SP_AWAIT + SP_AWAIT)
+        return rng.choice(SP_ALL)
+
+    def sweep(self):
+        for i in self.live():
+            self.see("ready", i)
+            self.see(self.rng.choice(["value", "cvalue"] if self.h[i] is not None else ["value"]), i)
+
+
+def api_lifecycle(rng, n):
+    """the late-initialisation life cycle with observers at every point, then every kind of access by every holder"""
+    g = ApiGen(rng)
+    h0 = g.new()
+    def polls(k):
+        for _ in range(rng.randint(0, k)):
+            ls = g.live()
+            if ls:
+                i = rng.choice(ls)
+                g.see(g.spell_for(i, 0.05), i)
+    polls(2)
+    if rng.random() < 0.3:
+        g.copy(h0)                      # copied before initialisation: not shared
+    how = rng.choice(["init-getp", "init-getp", "init-getp", "getp", "init-lshift"])
+    if how != "getp":
+        g.init(h0)
+        for _ in range(rng.randint(1, 3)):
+            g.copy(h0)
+        polls(4)
+        sharing = g.live(lambda st: st == g.h[h0])
+        g.getp(rng.choice(sharing), "lshift" if how == "init-lshift" else "getp")
+    else:
+        g.getp(h0)
+    for _ in range(rng.randint(0, 2)):
+        g.copy(rng.choice(g.live()))
+    polls(5)
+    if rng.random() < 0.3:
+        for i in g.live(lambda st: st == g.h[h0]):
+            if rng.random() < (0.9 if rng.random() < 0.3 else 0.3):
+                g.drop(i)
+    if g.h[h0] not in (None, "gone") or True:
+        g.resolve(0 if not g.ph else len(g.ph) - 1, api_rk(rng, n % 7))
+    for _ in range(rng.randint(2, 8)):
+        ls = g.live()
+        if not ls:
+            break
+        i = rng.choice(ls)
+        r = rng.random()
+        if r < 0.08:
+            g.emit("take %d" % i)
+        elif r < 0.16:
+            g.copy(i)
+        elif r < 0.22:
+            g.drop(i)
+        else:
+            g.see(g.spell_for(i, 0.03), i)
+    g.sweep()
+    return api_case(rng.choice(API_TYPES), g.ops)
+
+
+def api_pair(T, how, rk, a, b):
+    """holder 1 accesses through spelling a, then holder 0 through spelling b, then both re-read"""
+    ops = {"pf": ["mk pf"], "ff": ["mk ff"], "getp": ["new", "getp 0"], "init-getp": ["new", "init 0", "copy 0", "ready 1", "getp 1", "drop 1"],
+           "init-lshift": ["new", "init 0", "lshift 0"], "sv": ["mk sv 21"], "se": ["mk se 4"]}[how][:]
+    nh = 2 if how == "init-getp" else 1
+    ops += ["copy 0", "copy 0"]
+    c1, c2 = nh, nh + 1
+    early = a in SP_AWAIT or b in SP_AWAIT
+    if early and how not in ("sv", "se"):
+        if a in SP_AWAIT:
+            ops.append("%s %d" % (a, c1))
+        if b in SP_AWAIT:
+            ops.append("%s %d" % (b, 0))
+    if how not in ("sv", "se"):
+        ops.append("resolve 0 " + rk)
+    ops += ["%s %d" % (a, c1), "%s %d" % (b, 0), "value %d" % c2, "value %d" % c1, "ready %d" % c2]
+    return api_case(T, ops)
+
+
+def api_random(rng, n, maxlen=24):
+    g = ApiGen(rng)
+    for _ in range(rng.randint(3, maxlen)):
+        r = rng.random()
+        ls = g.live()
+        if r < 0.10 or not ls:
+            if rng.random() < 0.6:
+                g.new()
+            else:
+                g.mk(rng.choice(["pf", "ff", "sv", "se"]), 3 + n % 5)
+        elif r < 0.20:
+            g.copy(rng.choice(ls))
+        elif r < 0.24:
+            g.assign(rng.choice(ls), rng.choice(ls))
+        elif r < 0.31:
+            g.drop(rng.choice(ls))
+        elif r < 0.39:
+            g.init(rng.choice(ls))
+        elif r < 0.47:
+            g.getp(rng.choice(ls), "getp" if rng.random() < 0.75 else "lshift")
+        elif r < 0.57 and g.ph:
+            pend = [k for k, p in enumerate(g.ph) if p == "pending"]
+            g.resolve(rng.choice(pend) if pend and rng.random() < 0.9 else rng.randrange(len(g.ph)), api_rk(rng, n % 7))
+        elif r < 0.61:
+            g.emit("take %d" % rng.choice(ls))
+        else:
+            i = rng.choice(ls) if rng.random() < 0.97 else rng.randrange(len(g.h))
+            g.see(g.spell_for(i), i)
+    g.sweep()
+    return api_case(rng.choice(API_TYPES), g.ops)
+
+
+def _moved(v):
+    return "moved" if v.startswith("v:") else v
+
+
+def api_walk(case, out):
+    """the property evaluated call by call on the implementation's answers; yields (messages, facts for the statistics)"""
+    ops = [l.split() for l in case["lines"][1:]]
+    msgs, facts = [], {"sp": {}, "before": 0, "after": 0, "null": 0, "inst_evidence": 0, "after_take": 0, "after_other_access": 0,
+                       "ready_polls_before": 0, "awaiters": 0, "suspended": 0}
+    if not out:
+        return [], facts           # not run (the harness stops a batch after three hanging cases)
+    for l in out:
+        if l.startswith("crash signal 14"):
+            return ["once: a call inside the contract never returned (the case hung after %d answers)" % (len(out) - 2)], facts
+        if l.startswith("crash"):
+            return ["memory: the implementation crashed (use after free / double free / null dereference: %s)" % l], facts
+    if len(out) != len(ops):
+        return ["protocol: %d answers for %d calls" % (len(out), len(ops))], facts
+    expected, taken, freed = {}, set(), {}
+    waiting, resumed, states, accessed = {}, {}, set(), {}
+    for n, (w, l) in enumerate(zip(ops, out)):
+        head, _, ev = l.partition(" ; ")
+        hw, et = head.split(), ev.split()
+        evs, i = [], 0
+        while i < len(et):
+            if et[i] == "obs":
+                evs.append(("obs", int(et[i + 1][1:]), et[i + 2], et[i + 3])); i += 4
+            elif et[i] == "freed":
+                evs.append(("freed", int(et[i + 1][1:]))); i += 2
+            else:
+                return ["protocol: event `%s`" % et[i]], facts
+        op = w[0]
+        k = int(hw[0][1:]) if hw and re.fullmatch(r"s\d+", hw[0]) else None
+        if k is not None:
+            states.add(k)
+        here = "call %d `%s`" % (n, " ".join(w))
+        cur = lambda kk: _moved(expected[kk]) if kk in taken else expected[kk]
+        if op == "mk" and len(hw) == 2:
+            kk = int(hw[1][1:]); states.add(kk)
+            if w[1] == "sv":
+                expected[kk] = "v:" + w[2]
+            elif w[1] == "se":
+                expected[kk] = "exc:" + w[2]
+        elif op == "resolve" and hw[0] in ("ret", "ok"):
+            kk = int(w[1])
+            if hw[0] == "ret" and hw[1] != "1":
+                msgs.append("result: %s: the promise call returned %s" % (here, hw[1]))
+            if kk in freed:
+                msgs.append("life: state s%d was freed while it was still pending (before %s)" % (kk, here))
+            expected[kk] = "v:" + w[3] if w[2] == "value" else "exc:" + w[3] if w[2] == "exc" else "canceled"
+        elif op == "take" and k is not None and len(hw) == 3:
+            x = hw[2]
+            if k in expected:
+                if x != cur(k):
+                    msgs.append("result: %s moved out %s, the single result of s%d is %s" % (here, x, k, cur(k)))
+            elif x not in ("notready", "canceled"):
+                msgs.append("result: %s obtained %s before s%d was resolved" % (here, x, k))
+            if x.startswith("v:"):
+                taken.add(k)
+        elif op in SP_ALL and hw[0] not in ("pre", "gone", "?"):
+            facts["sp"][op] = facts["sp"].get(op, 0) + 1
+            x = hw[1]
+            if k is None:
+                facts["null"] += 1
+                if (op == "ready" and x != "0") or (op == "value" and x != "notready"):
+                    msgs.append("late-init: %s on a handle without state answered %s" % (here, x))
+            else:
+                res = k in expected
+                facts["after" if res else "before"] += 1
+                if res and k in taken:
+                    facts["after_take"] += 1
+                if res and accessed.get(k):
+                    facts["after_other_access"] += 1
+                if res:
+                    accessed[k] = accessed.get(k, 0) + 1
+                if op in SP_READY:
+                    if not res:
+                        facts["ready_polls_before"] += 1
+                    if x != ("1" if res else "0"):
+                        msgs.append(("late-init: %s answered ready=%s, s%d has not been resolved yet" if not res else
+                                     "result: %s answered ready=%s, s%d has been resolved") % (here, x, k))
+                elif op in SP_VALUE:
+                    if res and x != cur(k):
+                        msgs.append("result: %s observed %s, the single result of s%d is %s" % (here, x, k, cur(k)))
+                    if not res:
+                        if x == "canceled":
+                            facts["inst_evidence"] += 1
+                        if x not in ("notready", "canceled"):
+                            msgs.append("result: %s observed %s before s%d was resolved" % (here, x, k))
+                elif op == "join":
+                    want = "returned" if cur(k) == "moved" or cur(k).startswith("v:") else cur(k)
+                    if x != want:
+                        msgs.append("result: %s ended with %s, the single result of s%d is %s" % (here, x, k, cur(k)))
+                elif op in ("chasv", "cbool", "cnot"):
+                    has = expected[k] != "canceled"
+                    if x != ("1" if has != (op == "cnot") else "0"):
+                        msgs.append("result: %s answered %s, the single result of s%d is %s" % (here, x, k, cur(k)))
+                elif op in ("cpending", "cinit"):
+                    if op == "cinit" and x == "1":
+                        facts["inst_evidence"] += 1
+                    if res and x != "0":
+                        msgs.append("result: %s answered %s, s%d has been resolved" % (here, x, k))
+                elif op in SP_AWAIT:
+                    facts["awaiters"] += 1
+                    wid = int(x[1:])
+                    waiting[wid] = k
+                    resumed[wid] = 0
+                    if not res:
+                        facts["suspended"] += 1
+                    if res and not any(e[0] == "obs" and e[1] == wid for e in evs):
+                        msgs.append("once: %s: the awaiter of a resolved state was not resumed at once" % here)
+        for e in evs:
+            if e[0] == "freed":
+                if e[1] in freed:
+                    msgs.append("life: state s%d was freed twice" % e[1])
+                freed[e[1]] = n
+            else:
+                _, wid, kind, x = e
+                if wid not in waiting:
+                    msgs.append("once: %s resumed an unknown awaiter w%d" % (here, wid))
+                    continue
+                kk = waiting[wid]
+                resumed[wid] += 1
+                if resumed[wid] > 1:
+                    msgs.append("once: awaiter w%d of s%d was resumed %d times" % (wid, kk, resumed[wid]))
+                if kk in freed and freed[kk] < n:
+                    msgs.append("memory: awaiter w%d read the result after s%d was freed" % (wid, kk))
+                want = cur(kk) if kk in expected else "canceled" if op == "end" else None
+                if want is None:
+                    msgs.append("once: %s resumed awaiter w%d of s%d, which has not been resolved" % (here, wid, kk))
+                elif x != want:
+                    msgs.append("result: awaiter w%d (%s) observed %s, the single result of s%d is %s" % (wid, kind, x, kk, want))
+        if op == "end":
+            if hw != ["end", "alive=0", "vbal=0", "ebal=0"]:
+                msgs.append("life: at the end `%s` (leak of a shared state / stored values constructed and destroyed unevenly)" % head)
+            for wid, c in resumed.items():
+                if c != 1:
+                    msgs.append("once: awaiter w%d of s%d was resumed %d times" % (wid, waiting[wid], c))
+            for kk in sorted(states):
+                if kk not in freed:
+                    msgs.append("life: state s%d was never freed" % kk)
+        elif k is not None and k in freed and freed[k] < n:
+            msgs.append("memory: %s used s%d after it was freed" % (here, k))
+    return msgs, facts
+
+
+class ApiSuite(Suite):
+    name = "api"
+    harness = API_HARNESS
+    driver = "drv_c17"
+    corpus_prefix = "c17api_"
+    chunk = 400
+    timeout = 600
+    nontrivial_rule = "at least two observer calls were answered from a shared state (not `pre` / `gone`)"
+
+    def gen_cases(self, rng, tier):
+        q = tier == "quick"
+        hows = ["pf", "ff", "getp", "init-getp", "init-lshift", "sv", "se"]
+        pairs = []
+        for a in SP_ALL:
+            for b in SP_ALL:
+                for how in (hows if not q else [rng.choice(hows)]):
+                    for rk in (["value 12", "exc 3", "drop", "dtor"] if not q else [rng.choice(["value 12", "value 12", "exc 3", "drop"])]):
+                        pairs.append(api_pair(rng.choice(API_TYPES), how, rk, a, b))
+        nl, nr = (700, 900) if q else (15000, 25000)
+        return pairs + [api_lifecycle(rng, i) for i in range(nl)] + [api_random(rng, i) for i in range(nr)] + \
+            ([] if q else [api_random(rng, i, 60) for i in range(5000)])
+
+    def oracle(self, case, out):
+        return api_walk(case, out)[0]
+
+    def nontrivial(self, case, out):
+        return sum(1 for l, o in zip(case["lines"][1:], out) if l.split()[0] in SP_ALL and re.match(r"s\d+ ", o)) >= 2
+
+    def signature(self, case, msg):
+        return {"suite": self.name, "msg": msg.split(":")[0]}
+
+    def stats(self, cases, outs):
+        tot = {"before": 0, "after": 0, "null": 0, "inst_evidence": 0, "after_take": 0, "after_other_access": 0, "ready_polls_before": 0,
+               "awaiters": 0, "suspended": 0}
+        sp, types, opsn, rks = {}, {}, {}, {}
+        for c in cases:
+            types[c["lines"][0].split()[3]] = types.get(c["lines"][0].split()[3], 0) + 1
+            for l in c["lines"][1:-1]:
+                w = l.split()
+                key = "observer" if w[0] in SP_ALL else w[0] + (" " + w[1] if w[0] == "mk" else "")
+                opsn[key] = opsn.get(key, 0) + 1
+                if w[0] == "resolve":
+                    rks[w[2]] = rks.get(w[2], 0) + 1
+            try:
+                f = api_walk(c, outs.get(str(c["id"]), []))[1]
+            except Exception:
+                continue
+            for k in tot:
+                tot[k] += f[k]
+            for k, v in f["sp"].items():
+                sp[k] = sp.get(k, 0) + v
+        return {"value_types": types, "calls": opsn, "resolver_kinds": rks, "answered_observer_spellings": sp,
+                "observations_before_resolution": tot["before"], "observations_after_resolution": tot["after"],
+                "observations_on_a_null_handle": tot["null"], "ready_polls_before_resolution": tot["ready_polls_before"],
+                "answers_showing_the_initialised_unpromised_state": tot["inst_evidence"],
+                "observations_after_an_earlier_access_to_the_same_state": tot["after_other_access"],
+                "observations_after_the_user_moved_the_value_out": tot["after_take"],
+                "awaiters": tot["awaiters"], "awaiters_suspended_until_resolution": tot["suspended"]}
+
+
 class C17(Spec):
     pid = "C17"
     lean_modules = ["CoclsModel.Props.C17"]
@@ -362,7 +773,15 @@ class C17(Spec):
                   "a state where no thread can move is quiescent (no lost wake-up), the state is alive while pending whatever the handles do, is freed at most once and exactly once "
                   "at quiescence, is never accessed after the free, the tracer is the bottom node of the chain, late initialisation does not crash. The model is tied to the headers by "
                   "replaying generated and exhaustively enumerated schedules on the unmodified headers (baton scheduler, ASan/UBSan, life-time tracking of the make_shared block) and "
-                  "diffing every operation line; oracles evaluate the statement on the implementation trace.")
+                  "diffing every operation line; oracles evaluate the statement on the implementation trace. "
+                  "Second model (SharedFutureApi.lean, suite `api`): whole calls of one thread as atomic steps, any number of handles and shared states, ANY history of the public interface — "
+                  "default construction / constructors / factories, copy, copy-assignment, destruction, init_if_needed(), get_promise(), operator<<, the promise used in any of the four ways, "
+                  "every observer spelling (ready, value, wait, force_wait, join, sync, force_sync, co_await, callback awaiter, and through operator Base&: ready, pending, initialized, value, wait, "
+                  "join, operator*, has_value, operator bool, operator!) on any handle at any point of the late-initialisation life cycle — with the stored value's state (intact / moved-from) as data: "
+                  "by induction over the history, a resolved state shows exactly what the resolver stored to every spelling through every copy, ready() is false until the resolution, no value or "
+                  "exception is visible before it, no call except the resolver, the promise-attaching calls and the user's explicit std::move(h.value()) changes what any later access observes, and an "
+                  "intact value stays intact unless the user moves it out. Tied to the headers by replaying generated histories (all ordered pairs of spellings by two holders followed by re-reads, "
+                  "life-cycle histories with polls at every point, random histories) with move-sensitive value types (a counted type whose move empties the source, std::string beyond the SSO buffer).")
     level_note = ("trusted: Lean kernel; hand-written list-level model (intrusive `_next` links abstracted to a list; pointer-level safety of the walk is covered by ASan in the harness); "
                   "std::shared_ptr as specified (count = number of live handles, last drop destroys; its counter is not a scheduling point; the transient references inside charge() — "
                   "the by-value parameter and `_ptr = ptr` before the CAS — are not modelled, the creator holds its own handle throughout); the baton shim (sequentially consistent "
@@ -372,6 +791,8 @@ class C17(Spec):
                   "witnesses: init_if_needed() tested the pointer the wrong way round (get_promise() on a default-constructed object dereferenced null) and operator<< did not wire "
                   "the resolve tracer (state destroyed while pending once every handle was dropped).")
     trusted_base = ["model lean/CoclsModel/SharedFuture.lean tied to shared_future.h/future.h/awaiter.h by step-for-step replay (harness/h_shared_future.cpp, shim/verif_shim.h) against lean/Drivers/C17.lean",
+                    "model lean/CoclsModel/SharedFutureApi.lean (calls as atomic steps; blocking spellings only on resolved states) tied to the same headers by call-for-call replay (harness/h_shared_future_api.cpp: handle->state "
+                    "book-keeping and the contract test `pre` are the harness's own, life time observed through weak_ptr::expired) against lean/Drivers/C17.lean (case kind `api`)",
                     "std::shared_ptr, C++20 coroutine machinery and libstdc++ as specified"]
     assumptions = ["every awaiter holds its own handle for as long as it waits (documented contract of shared_future)",
                    "one promise per shared state, not invoked concurrently with its own destruction (competing resolvers are C01's subject)",
@@ -379,10 +800,12 @@ class C17(Spec):
                    "through init_if_needed() subscribes to an uninitialised future ('Invalid future state' assert, awaiter dropped under NDEBUG); get_promise() is called once, on an "
                    "object without a state or with a fresh init_if_needed() state — on a pending or already resolved shared_future the unchanged code keeps the state and "
                    "future::get_promise asserts (no re-arming); operator<< needs a state and is not applied to a pending one (future::result_of contract)",
-                   "interleavings are sequentially consistent (memory orders: C03)"]
+                   "interleavings are sequentially consistent (memory orders: C03)",
+                   "api suite: the stored value is changed only through the documented way (the user moves it out of the reference value() returns: modelled as `take`); observers that block are "
+                   "applied to resolved states only (one thread); awaiting spellings need a promised state (future.h asserts otherwise)"]
 
     def suites(self):
-        return [SharedFutureSuite()]
+        return [SharedFutureSuite(), ApiSuite()]
 
 
 SPEC = C17()
